@@ -185,17 +185,21 @@ theorem single_nest_h_mu (a : Int → ℝ) (nests : List (Nest ℝ)) (mu : ℝ) 
   cases h : findNest nests i with
   | none =>
     have hnot := findNest_none nests i h
-    rw [nestedMuLogG_none _ _ _ _ _ h]
-    unfold cnlMuLogG
-    rw [inSomeCNest_toCNestA_false a nests i hnot, ha1 i hnot]
+    rw [nestedMuLogG_none _ _ _ _ _ h,
+      cnlMuLogG_alone _ _ _ _ _ (Or.inl (inSomeCNest_toCNestA_false a nests i hnot)), ha1 i hnot]
     simp
   | some m =>
     obtain ⟨hm, him⟩ := findNest_some nests i m h
-    rw [nestedMuLogG_some _ _ _ _ _ m h]
-    unfold cnlMuLogG
-    rw [inSomeCNest_toCNestA_true a nests i m hm him, if_pos rfl, NumR.sum_real,
+    have hz : zeroMember (nests.map (toCNestA a)) i = false := by
+      unfold zeroMember
+      rw [giTerms_toCNestA a (fun _ _ x => x) i m nests hpw hnd h, Bool.eq_false_iff]
+      intro h0
+      have : a i = 0 := by simpa using h0
+      exact (ha i).ne' this
+    rw [nestedMuLogG_some _ _ _ _ _ m h,
+      cnlMuLogG_listed _ _ _ _ _ (inSomeCNest_toCNestA_true a nests i m hm him) hz,
       giTerms_toCNestA a (cnlMuTerm mu V av) i m nests hpw hnd h]
-    simp only [List.sum_cons, List.sum_nil, add_zero, emul_real, NumR.log_real]
+    simp only [List.sum_cons, List.sum_nil, add_zero]
     have hS := nestSum_pos (fun j => V j + Real.log (a j) / mu) av m i him hav
     have hm0 := hmum m hm
     rw [cnlMuTerm_real, toCNestA_mu, cnlBiosum_toCNestA_mu a V av mu m ha hmu.ne' h01]
